@@ -145,6 +145,11 @@ func tokenStart(ss []sym, r rendered, off int) bool {
 				if strings.ContainsRune("'\"$`(\\", rune(s.text[rel])) {
 					return true
 				}
+				// a token of the command inside a substitution: after a blank or an operator character, or an
+				// operator or closing character itself
+				if strings.ContainsAny(s.text, "`(") && s.text[rel] != ' ' && (strings.ContainsRune(" `(|;&", rune(s.text[rel-1])) || strings.ContainsRune("|;&)", rune(s.text[rel]))) {
+					return true
+				}
 			}
 		}
 	}
@@ -615,6 +620,30 @@ func c03Mutations(w *W) {
 		}
 	})
 	herePairs(w, false)
+	// substitutions with ill-formed content at the word positions of a few host sentences
+	for _, bad := range []string{"`a |`", "$(a |)", "`!`", "$( ; )", "\"`a |`\"", "$(a `b |`)", "$((`;`))", "${v:-`a |`}"} {
+		for _, t := range [][]string{{bad}, {"a", bad}, {"a", bad, ";", "a"}, {"x=1", bad}, {"a", ">", bad}, {"if", bad, ";", "then", "a", ";", "fi"}, {"a", "<<E", bad}, {"a", "|", bad}, {"{", "a", bad, ";", "}"}} {
+			if !w.Mine() {
+				continue
+			}
+			ss := syms(append(append([]string{}, t...), "\n")...)
+			m := gramParse(ss)
+			if m.ok || m.dontcare != "" {
+				continue
+			}
+			r := render(ss)
+			w.Announce(r.src)
+			o := runParse(r.src)
+			w.Count("states", 1)
+			w.Count("evaluations", 1)
+			w.Count("ill_formed_substitutions", 1)
+			w.Count("traces_validated_against_impl", 1)
+			w.Count("distinct_nontrivial", 1)
+			if cl, d := c03Judge(ss, m, r, o); d != "" {
+				w.Violation(c03Class(cl, ss, r, m, o), symCase{symTexts(ss), r.src}, d)
+			}
+		}
+	}
 	mutants(w, func(ss []sym) {
 		if lexicallyEntangled(ss) {
 			return
